@@ -180,6 +180,8 @@ func checkC12(c *Ctx) Meta {
 	c.Rule("C12-C", "memory after commit: no store to a durable-image field inside an Update closure or its callees; in the operation every such store (or call leading to one) lies behind the success edge of the Update result test", 8)
 	c.Rule("C12-D", "errors reach the closure's return: every error from a bucket write or keystore helper inside an Update closure (and callees) is tested and, on the non-nil branch, a provably non-nil error is returned without rejoining normal flow", 60)
 	c.Rule("C12-F", "outside the closures as well, every error returned by a transaction (db.Update/db.View) or by a keystore/db helper to a function of the keystore or wallet package is looked at on every path and, on its non-nil branch, fails the operation with a non-nil error (no log-and-continue after a failed step of an operation)", 50)
+	c.Rule("C12-G", "the transaction runners report every failure: db.Update/db.View return the error of beginning the transaction, of the body and of the commit on every path (a failed commit is never rolled back and reported as success), and db.Update reports success only after tx.Commit", 5)
+	checkTxRunner(c, "C12-G")
 	c.Rule("C12-E", "transaction wrapper: in db.Update a closure error leads to Rollback and is returned; otherwise the result of Commit is returned", 3)
 
 	ksExports := exportedFuncs(c, pkgKeystore)
@@ -570,5 +572,64 @@ func checkUpdateWrapper(c *Ctx, rule string) {
 	}
 	if good {
 		c.OK(rule, "db.Update:commit", c.Pos(commit.Pos()), "success path returns Commit's result; Rollback unreachable")
+	}
+}
+
+// checkTxRunner: the transaction runners db.Update / db.View themselves. Every keystore operation
+// acknowledges exactly what its runner reports, so the runner must report every failure: of beginning
+// the transaction, of the body, and of the commit (a commit error that is rolled back and then
+// reported as success makes every operation acknowledge work that never reached the store).
+func checkTxRunner(c *Ctx, rule string) {
+	var scope []*ssa.Function
+	for _, n := range []string{"Update", "View"} {
+		if f := c.MustFn(rule, "poc/wallet/db", n); f != nil {
+			scope = append(scope, f)
+		}
+	}
+	isStep := func(fn *ssa.Function, call *ssa.Call) bool {
+		if call.Call.IsInvoke() {
+			switch call.Call.Method.Name() {
+			case "BeginTx", "BeginReadTx", "Commit":
+				return true
+			}
+			return false
+		}
+		// the body: a call of the function-typed parameter
+		if p, ok := call.Call.Value.(*ssa.Parameter); ok && p.Parent() == fn {
+			return true
+		}
+		return false
+	}
+	runErrflow(c, errflowCfg{
+		rule:   rule,
+		scope:  scope,
+		classK: isStep,
+		strict: func(fn *ssa.Function, call *ssa.Call) bool { return true },
+		keyOf: func(fn *ssa.Function, call *ssa.Call, ordinal int) string {
+			n := "body"
+			if call.Call.IsInvoke() {
+				n = call.Call.Method.Name()
+			}
+			return fmt.Sprintf("db.%s:%s#%d", fn.Name(), n, ordinal)
+		},
+	})
+	// and Update commits at all: a successful return is reachable only through Commit
+	if f := c.Fn("poc/wallet/db", "Update"); f != nil {
+		isCommit := func(in ssa.Instruction) bool {
+			cl, ok := in.(*ssa.Call)
+			return ok && cl.Call.IsInvoke() && cl.Call.Method.Name() == "Commit"
+		}
+		r := reach(f, nil, nil, isCommit)
+		bad := false
+		for _, ret := range returnsOf(f) {
+			if r(ret) && isNilErrorReturn(ret) && !isCommit(ret) {
+				bad = true
+			}
+		}
+		if bad {
+			c.Bad(rule, "db.Update:success-only-after-commit", c.Pos(f.Pos()), "db.Update can report success without having committed the transaction")
+		} else {
+			c.OK(rule, "db.Update:success-only-after-commit", c.Pos(f.Pos()), "every successful return of db.Update has passed tx.Commit")
+		}
 	}
 }
